@@ -33,8 +33,10 @@ CALIBRATE = bool(os.environ.get('VERIF_CALIBRATE'))
 EPS = float(np.finfo(float).eps)
 METHODS = list(cm.METHODS)
 ORDERS = (2, 4)
+RATIOS = (4.0, 1.6)          # non-default step_ratio option (affine maps only: exact for every ratio)
 K1 = 100.0
 AFFINE_UNITS = 1e4
+AFFINE_RATIO_REL = 1e-6
 E_FALLBACK = dict(central=1e-9, complex=1e-9, multicomplex=1e-9, forward=1e-6, backward=1e-6)
 REAL_STEP = ('central', 'forward', 'backward')
 DEFAULT_GEN = ('default', {})
@@ -290,7 +292,7 @@ def _jc(part, spec, ptk, form, method, order, **kw):
 
 # -- Jacobian ------------------------------------------------------------------------------------
 
-def do_jac(acc, orc, form, method, order):
+def do_jac(acc, orc, form, method, order, ratio=None):
     import numdifftools as nd
     spec, ptk = orc.spec, orc.ptk
     family, out, m, n, k, variant = spec
@@ -300,6 +302,10 @@ def do_jac(acc, orc, form, method, order):
     nontriv = any(it[5] for it in items)
     case = ('jac', spec, ptk, form, method, order)
     jc = _jc('jac', spec, ptk, form, method, order)
+    opts = {}
+    if ratio is not None:          # the step_ratio option (affine maps stay exact for every ratio)
+        case, opts = case + (ratio,), dict(step_ratio=ratio)
+        jc['step_ratio'] = ratio
     rank = _rank(spec, order, JAC_FORMS.index(form))
     sclass, vclass = shape_class(m, n), value_class(spec, form)
     cells = ['jac/method=%s/order=%d' % (method, order), 'jac/form=%s' % form, 'jac/family=%s' % family,
@@ -315,10 +321,12 @@ def do_jac(acc, orc, form, method, order):
             cells += ['ridge/g=%s' % e[1], 'ridge/h=%s' % e[2]]
         cells = sorted(set(cells))
     want = expected_jac_shape(spec, form)
-    head = 'Jacobian(f, method=%r, order=%d)(x) with f = %s, x = %r (%s)' % (
-        method, order, ridge.describe(spec), orc.x, form)
+    head = 'Jacobian(f, method=%r, order=%d%s)(x) with f = %s, x = %r (%s)' % (
+        method, order, '' if ratio is None else ', step_ratio=%r' % ratio, ridge.describe(spec), orc.x, form)
+    if ratio is not None:
+        cells = cells + ['jac/step_ratio=%r' % ratio]
 
-    status, val = call(lambda: nd.Jacobian(fun, method=method, order=order)(x))
+    status, val = call(lambda: nd.Jacobian(fun, method=method, order=order, **opts)(x))
     if status != 'ok':
         acc.case(case, nontrivial=nontriv, cell=cells, outcome=status)
         acc.violation('C03:Jacobian:%s:%s' % (status, vclass), jc, '%s raised %s' % (head, val), rank)
@@ -335,7 +343,12 @@ def do_jac(acc, orc, form, method, order):
     for (i, j, l, exact, unit, nt) in items:
         v = val[orc.index(i, j, l, got)]
         err = _err(v, exact)
-        if family == 'affine':
+        if family == 'affine' and opts:
+            # non-default step_ratio: the 15 default steps reach down to ~1e-9, a difference quotient of an affine map
+            # carries the rounding of f divided by the step: allowance 1e-6 x (|A||x| + |b| + |A_ij|)
+            ratio = err / (AFFINE_RATIO_REL * unit)
+            acc.maxi('worst/affine-rel-units-nondefault-ratio/%s' % method, err / unit)
+        elif family == 'affine':
             ratio = err / (AFFINE_UNITS * EPS * unit)
             acc.maxi('worst/affine-eps-units/%s' % method, err / (EPS * unit))
         else:
@@ -362,8 +375,9 @@ def do_jac(acc, orc, form, method, order):
         i, j, l, v, exact, err, unit = worst_item
         if family == 'affine':
             key = 'C03:Jacobian:affine-inexact:%s:%s' % (method, out)
-            text = ('%s: entry [%s] = %r, exact %s: error %.3g > 1e4 eps x (|A||x|+|b|+|A_ij|) = %.3g; %d of %d entries '
-                    'fail' % (head, (i, j, l), v, mp.nstr(exact, 17), err, AFFINE_UNITS * EPS * unit, nbad, len(items)))
+            text = ('%s: entry [%s] = %r, exact %s: error %.3g > %s x (|A||x|+|b|+|A_ij|) = %.3g; %d of %d entries '
+                    'fail' % (head, (i, j, l), v, mp.nstr(exact, 17), err, '1e-6' if opts else '1e4 eps',
+                              (AFFINE_RATIO_REL if opts else AFFINE_UNITS * EPS) * unit, nbad, len(items)))
         else:
             key = 'C03:Jacobian:%s:%s:%s' % ('nonfinite' if nonfinite else 'envelope', method, out)
             text = ('%s: entry [%s] = %r, exact d f[%d,%d]/d x_%d = %s: error %.3g > E=%g x S=%.3g; %d of %d class-A '
@@ -553,6 +567,11 @@ def run_item(acc, spec, ptk, tier):
         for method in METHODS:
             for order in ORDERS:
                 do_jac(acc, orc, form, method, order)
+    if family == 'affine':
+        for ratio in RATIOS:
+            for method in METHODS:
+                for order in ORDERS:
+                    do_jac(acc, orc, 'array', method, order, ratio=ratio)
     if out != 'scalar':
         return
     for form in grad_forms(n):
@@ -681,7 +700,7 @@ def required_cells(tier):
     req += ['ridge/g=%s' % g for g in ridge.FUNS] + ['ridge/h=%s' % g for g in ridge.FUNS]
     req += ['grad/form=%s' % f for f in GRAD_FORMS] + ['grad/size1', 'grad/size>1']
     req += ['grad/method=%s/order=%d' % (me, o) for me in METHODS for o in ORDERS]
-    req += ['select/map=%s' % mname for mname in SELECT_MAPS]
+    req += ['select/map=%s' % mname for mname in SELECT_MAPS] + ['jac/step_ratio=%r' % r for r in RATIOS]
     req += ['dd/v=%s' % v for v in V_KINDS] + ['dd/vform=%s' % f for f in V_FORMS]
     req += ['dd/method=%s/order=%d' % (me, o) for me in METHODS for o in ORDERS]
     return req
@@ -726,7 +745,7 @@ def run(ctx):
         'returned as 0-d value, length-m vector or (m, k) matrix; + the affine selection maps x, x[::-1], x[1:], x[::2], '
         'x.reshape(2, n/2)(.T) that return VIEWS of their argument (exact 0/1 Jacobians, n <= 6 (8)); x 4 point families (0.3+0.1 i; all 25; all 1e-3; '
         'mixed sign) x input forms (list, 1-d array, (n,1) column, float and 0-d array for n = 1) x 5 methods x '
-        'order in (2, 4).  Oracle: shape exactly (m, n) / (m, n, k) ((m, n, 1) for a column x); every class-A entry '
+        'order in (2, 4) (affine maps also with step_ratio 4 and 1.6).  Oracle: shape exactly (m, n) / (m, n, k) ((m, n, 1) for a column x); every class-A entry '
         '(analyticity radius of t -> f_i(x + t e_j) >= c_A x largest documented step) within E(method, 1) x S_1 of the '
         'closed-form partial derivative (60-digit mpmath, cross-checked against jets); affine maps exact to '
         '1e4 eps (|A||x| + |b| + |A_ij|) entrywise, because a difference quotient of an affine map only carries the '
@@ -759,7 +778,7 @@ def replay(case):
     acc = fw.Acc()
     orc = PointOracle(spec, ptk)
     if case['part'] == 'jac':
-        text = do_jac(acc, orc, case['form'], method, order)
+        text = do_jac(acc, orc, case['form'], method, order, ratio=case.get('step_ratio'))
     elif case['part'] == 'grad':
         text = do_grad(acc, orc, case['form'], method, order)
     else:
